@@ -33,7 +33,7 @@ def run_python_rows(ctx, rows):
     done = set()
     for fname, cat, e in rows:
         key = (e.get('pass'), e.get('arg'))
-        if key in done or e.get('pass') in ('clang', 'clangbinarysearch', 'clex', 'gcda-binary', None) or e.get('pass') not in CVise.pass_name_mapping:
+        if key in done or e.get('pass') in ('clang', 'clangbinarysearch', 'gcda-binary', None) or e.get('pass') not in CVise.pass_name_mapping:
             continue
         done.add(key)
         d = tempfile.mkdtemp(prefix='c14row-', dir=ctx.tmp)
